@@ -1,4 +1,5 @@
 (* C01 — parallel map (fifo_stream / Parmapper) is order-preserving. Statements only. *)
+From MpV Require Import Proof.FifoCalls.
 From MpV Require Import Lib.Conc Model.FifoStream Proof.FifoProof Proof.FifoComplete.
 
 (* For every configuration (capacity, pool size, source of any length with failures anywhere,
@@ -32,7 +33,13 @@ Theorem C01_fifo_complete : forall (g : cfg) (sched : list label),
 Proof. exact fifo_complete. Qed.
 Print Assumptions C01_fifo_complete.
 
-(* C01_calls_once_todo (checked by the oracle on every explored run): NoDup (calls s) /\ no call for an element the preprocessor rejected. *)
+(* The worker function is started at most once per element, and never for an element the preprocessor rejected
+   (its future is created already failed). *)
+Theorem C01_calls_once : forall g sched,
+  NoDup (calls (run step g (init g) sched)) /\
+  forall i, In i (calls (run step g (init g) sched)) -> forall e, pre_of g (val g i) <> PreErr e.
+Proof. exact calls_once. Qed.
+Print Assumptions C01_calls_once.
 
 (* Non-vacuity: a run with out-of-order completion delivers in input order. *)
 Example C01_example :
